@@ -19,17 +19,22 @@ type MemIO struct {
 	Files map[string][]byte
 	Out   map[string]*bytes.Buffer
 	Reads []string
+	// Terminal makes every created destination claim to be a terminal.
+	Terminal bool
 }
 
-type memWriter struct{ io.Writer }
+type memWriter struct {
+	io.Writer
+	term bool
+}
 
-func (memWriter) IsTerminal() bool { return false }
+func (w memWriter) IsTerminal() bool { return w.term }
 
 // Create implements cmd.IO.
 func (m *MemIO) Create(path string) (gcetcbendorsement.TerminalWriter, func(), error) {
 	b := &bytes.Buffer{}
 	m.Out[path] = b
-	return memWriter{b}, func() {}, nil
+	return memWriter{b, m.Terminal}, func() {}, nil
 }
 
 // ReadFile implements cmd.IO.
